@@ -93,14 +93,17 @@ func validateFields(doc *ast.Document, s *schema.Schema, features schema.Feature
 		return true
 	})
 
+	checked := newCheckedFieldPairs()
 	ast.Inspect(doc, func(node ast.Node) bool {
 		if node, ok := node.(*ast.SelectionSet); ok {
 			set := map[string][]fieldAndParent{}
 			if err := addFieldSelections(set, node, fragmentDefinitions); err != nil {
 				ret = append(ret, err)
 				return false
-			} else if err := validateFieldsInSetCanMerge(set, fragmentDefinitions, typeInfo, maxDepth); err != nil {
+			} else if err := validateFieldsInSetCanMerge(set, fragmentDefinitions, typeInfo, maxDepth, checked); err != nil {
 				ret = append(ret, err)
+				// the pairs on the way to the error have not been checked completely
+				checked = newCheckedFieldPairs()
 				return false
 			}
 		}
@@ -115,13 +118,56 @@ type fieldAndParent struct {
 	parent *ast.SelectionSet
 }
 
-func validateFieldsInSetCanMerge(fieldsForName map[string][]fieldAndParent, fragmentDefinitions map[string]*ast.FragmentDefinition, typeInfo *TypeInfo, depth int) *Error {
+type fieldPair struct {
+	a, b *ast.Field
+}
+
+// checkedFieldPairs holds the pairs of fields for which a check has been started. As the first
+// error aborts everything up to validateFields, which then starts over with an empty set, a pair
+// found here has either been checked without error, or is being checked right now. The latter is
+// only possible if there is a fragment cycle (which validateFragments reports), and such a pair has
+// nothing to add to its own check.
+//
+// The same two fields are reached once for every pair of enclosing fields or fragment spreads whose
+// sub-selections contain them, so without this the work is exponential in the nesting depth of the
+// document. Pairs of fields without sub-selections are cheap and numerous, so they are not kept.
+type checkedFieldPairs struct {
+	canMerge          map[fieldPair]struct{}
+	sameResponseShape map[fieldPair]struct{}
+}
+
+func newCheckedFieldPairs() *checkedFieldPairs {
+	return &checkedFieldPairs{
+		canMerge:          map[fieldPair]struct{}{},
+		sameResponseShape: map[fieldPair]struct{}{},
+	}
+}
+
+// Returns true if the pair is already in the set. Otherwise the pair is added if it has
+// sub-selections.
+func alreadyChecked(set map[fieldPair]struct{}, a, b *ast.Field) bool {
+	if a.SelectionSet == nil && b.SelectionSet == nil {
+		return false
+	}
+	pair := fieldPair{a, b}
+	if _, ok := set[pair]; ok {
+		return true
+	}
+	set[pair] = struct{}{}
+	return false
+}
+
+func validateFieldsInSetCanMerge(fieldsForName map[string][]fieldAndParent, fragmentDefinitions map[string]*ast.FragmentDefinition, typeInfo *TypeInfo, depth int, checked *checkedFieldPairs) *Error {
 	for _, fields := range fieldsForName {
 		for i := 0; i < len(fields); i++ {
 			for j := i + 1; j < len(fields); j++ {
 				fieldA := fields[i].field
 				fieldB := fields[j].field
-				if err := validateSameResponseShape(fieldA, fieldB, fragmentDefinitions, typeInfo, depth); err != nil {
+				// a field has exactly one parent selection set, so the fields identify the pair
+				if alreadyChecked(checked.canMerge, fieldA, fieldB) {
+					continue
+				}
+				if err := validateSameResponseShape(fieldA, fieldB, fragmentDefinitions, typeInfo, depth, checked); err != nil {
 					return err
 				}
 
@@ -159,7 +205,7 @@ func validateFieldsInSetCanMerge(fieldsForName map[string][]fieldAndParent, frag
 						return err
 					} else if err := addFieldSelections(mergedSet, fieldB.SelectionSet, fragmentDefinitions); err != nil {
 						return err
-					} else if err := validateFieldsInSetCanMerge(mergedSet, fragmentDefinitions, typeInfo, depth-1); err != nil {
+					} else if err := validateFieldsInSetCanMerge(mergedSet, fragmentDefinitions, typeInfo, depth-1, checked); err != nil {
 						return err
 					}
 				}
@@ -221,9 +267,13 @@ func valuesAreIdentical(a, b ast.Value) bool {
 	panic(fmt.Sprintf("unexpected value type: %T", a))
 }
 
-func validateSameResponseShape(fieldA, fieldB *ast.Field, fragmentDefinitions map[string]*ast.FragmentDefinition, typeInfo *TypeInfo, depth int) *Error {
+func validateSameResponseShape(fieldA, fieldB *ast.Field, fragmentDefinitions map[string]*ast.FragmentDefinition, typeInfo *TypeInfo, depth int, checked *checkedFieldPairs) *Error {
 	if depth <= 0 {
 		return newSecondaryError(fieldA, "fragment cycle detected")
+	}
+
+	if alreadyChecked(checked.sameResponseShape, fieldA, fieldB) {
+		return nil
 	}
 
 	var typeA, typeB schema.Type
@@ -295,7 +345,7 @@ func validateSameResponseShape(fieldA, fieldB *ast.Field, fragmentDefinitions ma
 	for _, fields := range fieldsForName {
 		for i := 0; i < len(fields); i++ {
 			for j := i + 1; j < len(fields); j++ {
-				if err := validateSameResponseShape(fields[i].field, fields[j].field, fragmentDefinitions, typeInfo, depth-1); err != nil {
+				if err := validateSameResponseShape(fields[i].field, fields[j].field, fragmentDefinitions, typeInfo, depth-1, checked); err != nil {
 					return err
 				}
 			}
